@@ -39,6 +39,8 @@ structure TState where
   /-- number of events buffered for a healthy leaf at the instant everything was durably blocked, before any
       virtual time passed (only recorded in scenarios without injected sleeps) -/
   instant : List (Nat × Nat) := []
+  /-- nodes that received a Refilter inside the burst of the current round -/
+  burstRefiltered : List Nat := []
 
 def lookupNat {α : Type} (k : Nat) (l : List (Nat × α)) : Option α := (l.find? (·.1 == k)).map (·.2)
 
@@ -93,8 +95,11 @@ def treeAct (st : TState) (a : SAct) : TState × String :=
   let lr := match a with
     | .refilter id f => if st.inBurst then none else some (id, f)
     | _ => none
+  let br := match a with
+    | .refilter id _ => if st.inBurst then id :: st.burstRefiltered else []
+    | _ => if st.inBurst then st.burstRefiltered else []
   ({ st with sys := sys', roundCache := [], roundEvs := [], fuzzy := fz, burstRound := st.inBurst, loose := loose,
-             lastRefilter := lr }, "ok")
+             lastRefilter := lr, burstRefiltered := br }, "ok")
 
 def treeLine (st : TState) (e : SExp) : TState × String :=
   match e with
@@ -143,7 +148,7 @@ def treeLine (st : TState) (e : SExp) : TState × String :=
     match id.toNat?, n.toNat? with
     | some id, some n => ({ st with instant := setNat id n st.instant }, "ok")
     | _, _ => (st, "bad instant")
-  | .list [.atom "burst-begin"] => ({ st with inBurst := true, fuzzy := [], burstRound := true }, "ok")
+  | .list [.atom "burst-begin"] => ({ st with inBurst := true, fuzzy := [], burstRound := true, burstRefiltered := [] }, "ok")
   | .list [.atom "burst-end"] => ({ st with inBurst := false }, "ok")
   | .list [.atom "obs", .atom id, r, d, c, evs, ec] =>
     match id.toNat?, decBool r, decBool d, decCache c, decBool ec with
@@ -185,7 +190,7 @@ def treeLine (st : TState) (e : SExp) : TState × String :=
                 else
                   let tag := match st.lastRefilter with
                     | some (rid, _) => if rid == id then "C06/C07/C08" else "C06/C08"
-                    | none => "C06/C08"
+                    | none => if st.burstRefiltered.contains id then "C06/C07/C08" else "C06/C08"
                   some s!"{tag} {kind} node {id} holds {showObjs mine}, its filter applied to the parent's cache gives {showObjs want}"
               | _, _, _ => none
             else none
